@@ -116,6 +116,9 @@ def parse_log(text):
             r["covers_total"] += 1
             if status == "SATISFIED":
                 r["covers_sat"] += 1
+            elif desc.strip().startswith("opt:"):
+                # optional witness (shared helper called with a concrete case in which it cannot apply)
+                r["covers_total"] -= 1
             else:
                 r["covers_unsat"].append({"name": name, "desc": desc, "loc": loc, "status": status})
             continue
